@@ -40,6 +40,26 @@ Theorem C01_stream_roundtrip_bytes_with_size : forall l bs w rest es,
   exists es' c, fault_free es' /\ read_bytes_with_size l (mkR (w ++ rest) es) = (Ok bs, mkR rest es', c).
 Proof. exact read_bytes_with_size_roundtrip. Qed.
 
+(* WriteCollection / ReadCollection (elements of k bytes each, written with WriteBytes and read with ReadBytes; every
+   length-prefix width; the EMPTY collection included): written at the end of a ByteBuffer, exactly
+   prefix(count) ++ elements is appended - nothing is left to a later write, so it also holds when the collection is the
+   last thing in the stream - and reading it back under every fault-free chunking returns the elements and stops
+   exactly behind them. *)
+Theorem C01_stream_roundtrip_collection : forall l k elems b b' rest es,
+  at_end b -> Forall (fun e => length e = k) elems -> (Z.of_nat (length elems) <= MaxInt64)%Z ->
+  wop_run (WCollection l elems (Z.of_nat (length elems))) b = Ok b' -> fault_free es ->
+  exists w, b' = mkB (bbuf b ++ w) (length (bbuf b ++ w)) /\
+    exists es' c, fault_free es' /\ read_collection l k (mkR (w ++ rest) es) = (Ok (SVList elems), mkR rest es', c).
+Proof. exact collection_roundtrip. Qed.
+
+(* non-vacuity: the empty collection as the last thing written is its 4 zero prefix bytes; two 1-byte elements *)
+Example C01_collection_examples :
+  wop_run (WCollection L32 [] 0) (mkB [9]%N 1) = Ok (mkB [9; 0; 0; 0; 0]%N 5) /\
+  fst (fst (read_collection L32 1 (mkR [0; 0; 0; 0]%N [Half]))) = Ok (SVList []) /\
+  wop_run (WCollection L8 [[5]; [6]]%N 2) (mkB [] 0) = Ok (mkB [2; 5; 6]%N 3) /\
+  at_end (mkB [9]%N 1) /\ Forall (fun e => length e = 1) [[5]; [6]]%N.
+Proof. repeat split; try (vm_compute; reflexivity); repeat constructor. Qed.
+
 (* Serializer -> Deserializer pairs *)
 Theorem C01_des_roundtrip_num : forall k v rest o, in_range k v ->
   dstep (mkD (bytes_of_num k v ++ rest) o None) (DNum k) = SOk (mkD rest (o + nk_size k) None) (ONum v) 0.
@@ -80,6 +100,7 @@ Print Assumptions C01_read_full_all_chunkings.
 Print Assumptions C01_stream_roundtrip_T.
 Print Assumptions C01_stream_roundtrip_bytes.
 Print Assumptions C01_stream_roundtrip_bytes_with_size.
+Print Assumptions C01_stream_roundtrip_collection.
 Print Assumptions C01_des_roundtrip_num.
 Print Assumptions C01_des_roundtrip_bool.
 Print Assumptions C01_des_roundtrip_bytes.
